@@ -223,8 +223,10 @@ def evolution(m, scratch, rng, rep, cluster, kind, idx, read_before=False):
         return
     checks = [("call", lambda: mod.caller(3)), ("memento", lambda: mod.caller.memento(3)), ("list_mementos", lambda: mod.caller.list_mementos()),
               ] + ([("list_mementos of the function that received it", lambda: mod.apply_fn.list_mementos())] if via_arg else []) + [
-              
-              ("list_memoized_functions", lambda: m.list_memoized_functions(cluster))]
+              ("list_memoized_functions", lambda: m.list_memoized_functions(cluster)),
+              # every function the store lists -- the vanished callee version included, as an external stub -- lists its entries
+              ("list_mementos of every listed function", lambda: [(r.qualified_name, bool(r.external), [mm.invocation_metadata.fn_reference_with_args.effective_kwargs for mm in r.memento_fn.list_mementos()])
+                                                                  for r in m.list_memoized_functions(cluster)])]
     for name, f in checks:
         tr.clear()
         try:
@@ -237,6 +239,12 @@ def evolution(m, scratch, rng, rep, cluster, kind, idx, read_before=False):
             ran = [e for e in tr.execs() if e[1] == "caller"]
             if r != before or ran:
                 rep.violation("C12:current-entry-not-served-after-evolution", "caller's own version is current but the call returned %r (stored %r), body ran %d times" % (r, before, len(ran)), meta)
+        if name == "list_mementos of every listed function":
+            # (a listed name that resolves to a live function of ANOTHER cluster -- the re-clustered callee -- is looked up where
+            # that function lives now; the property only asks that reading it does not raise)
+            empty = [qn for qn, ext, entries in r if ext and not entries]
+            if empty:
+                rep.violation("C12:listed-function-lists-no-entries", "after the callee was %s, the store lists %r but no entries for them" % (kind, empty), dict(meta, listing=repr(r)[:400]))
         if name == "memento":
             if r is None:
                 rep.violation("C12:current-entry-not-found-after-evolution", "caller.memento() is None although its version is current", meta)
